@@ -236,10 +236,26 @@ def _alias_closure(fn, name):
     return out
 
 
-def _origin_of(e, org):
-    """the one option an expression derives from: through locals of known origin and direct self.option("o") reads; else None"""
+class _Origins(dict):
+    """{local: option}; `.mixed` holds the locals computed from MORE than one option (or from such a local): no single option stands
+    behind them, and nothing computed from them has one"""
+    def __init__(self, *a):
+        super().__init__(*a)
+        self.mixed = set()
+
+
+def _origins_used(e, org):
     used = {org[x.id] for x in ast.walk(e) if isinstance(x, ast.Name) and x.id in org}
     used |= {x.args[0].value for x in ast.walk(e) if isinstance(x, ast.Call) and ast.unparse(x.func) == "self.option" and x.args and isinstance(x.args[0], ast.Constant)}
+    return used
+
+
+def _origin_of(e, org):
+    """the one option an expression derives from: through locals of known origin and direct self.option("o") reads; else None"""
+    mixed = getattr(org, "mixed", ())
+    if mixed and any(isinstance(x, ast.Name) and x.id in mixed for x in ast.walk(e)):
+        return None
+    used = _origins_used(e, org)
     return next(iter(used)) if len(used) == 1 else None
 
 
@@ -280,13 +296,18 @@ def _option_origins(h):
     another option changes its origin from there on."""
     if hasattr(h, "_sa_origins"):
         return h._sa_origins[0]
-    org, at = {}, {}
+    org, at = _Origins(), {}
     for n in _in_order(h):
         if isinstance(n, ast.Assign) and len(n.targets) == 1 and isinstance(n.targets[0], (ast.Name, ast.Tuple)):
             names = [n.targets[0]] if isinstance(n.targets[0], ast.Name) else [e for e in n.targets[0].elts if isinstance(e, ast.Name)]
             o = _origin_of(n.value, org)
             at[id(n)] = o
             direct = isinstance(n.value, ast.Call) and ast.unparse(n.value.func) == "self.option"
+            if o is None and (len(_origins_used(n.value, org)) > 1 or any(isinstance(x, ast.Name) and x.id in org.mixed for x in ast.walk(n.value))):
+                # a fresh local computed from several options stands for none of them (and is not neutral like a constant)
+                org.mixed.update(t.id for t in names if t.id not in org)
+            elif direct:
+                org.mixed.difference_update(t.id for t in names)
             if o is not None:
                 for t in names:
                     # a local that already stands for an option keeps it when it is refined (validated, split, defaulted from other
